@@ -428,13 +428,27 @@ class Live:
         self.argbuf = []      # one list object re-used (and edited in place) for every other argument
         self.argcount = 0
 
-    def arg(self, names):
-        """The caller may keep one list and edit it between calls; a correct library never retains it."""
+    def arg(self, names, iter_ok=True, set_ok=False):
+        """The argument forms a caller may use for 'an iterable of labels', in rotation: a fresh list, one
+        list object that the caller keeps and edits between calls (a correct library never retains it), a
+        tuple, a str when every label is a single character (a str is an iterable of its characters), a
+        one-shot iterator (``iter_ok``), a frozenset (``set_ok``: only where the signature says Iterable)."""
         self.argcount += 1
-        if self.argcount % 2:
-            return list(names)
-        self.argbuf[:] = names
-        return self.argbuf
+        form = self.argcount % 8
+        if form in (1, 5):
+            self.argbuf[:] = names
+            return self.argbuf
+        if form == 2:
+            return tuple(names)
+        if form == 3 and names and all(isinstance(x, str) and len(x) == 1 for x in names):
+            self.rec.probe('str_argument')
+            return ''.join(names)
+        if form == 4 and iter_ok:
+            return iter(list(names))
+        if form == 6 and set_ok:
+            self.rec.probe('frozenset_argument')
+            return frozenset(names)
+        return list(names)
 
     # ---------------------------------------------------------- helpers
 
@@ -626,7 +640,7 @@ class Live:
                 continue
             names = list(sl.onames(A))
             e, i = self._least_concept(f, A=A)
-            got = call(ctx.__getitem__, self.arg(names))
+            got = call(ctx.__getitem__, self.arg(names, set_ok=True))
             want = (sl.onames(e), sl.pnames(i))
             rec.check('C02.least_concept', got.ok and got.value == want,
                       lambda: f'context[{names!r}] = {got.text()} model {want!r} rows={f.rows}')
@@ -650,7 +664,7 @@ class Live:
                 continue
             names = list(sl.pnames(B))
             e, i = self._least_concept(f, B=B)
-            got = call(ctx.__getitem__, names)
+            got = call(ctx.__getitem__, self.arg(names, iter_ok=False, set_ok=True))
             want = (sl.onames(e), sl.pnames(i))
             rec.check('C02.least_concept', got.ok and got.value == want,
                       lambda: f'context[{names!r}] = {got.text()} model {want!r} rows={f.rows}')
@@ -699,7 +713,7 @@ class Live:
             if got.ok:
                 self.ledger_check(sl, lt, e, got.value, f'lattice({names!r})')
             if B:
-                got = call(lat.__getitem__, names)
+                got = call(lat.__getitem__, self.arg(names, iter_ok=False))
                 rec.check('C02.lattice_getitem_is_member', got.ok and got.value is table.get(e),
                           lambda: f'lattice[{names!r}] = {got.text()} expected member with extent {sl.onames(e)!r}')
         for k in range(len(ms)):
@@ -724,7 +738,7 @@ class Live:
             want = {(sl.onames(f.concepts()[u][0]), sl.pnames(f.concepts()[u][1]))
                     for u in f.upper_covers(ci)}
             # any iterable of labels is documented: lists, tuples, one-shot iterators
-            got = call(ctx.neighbors, iter(list(names)) if k % 4 == 3 else (tuple(names) if k % 4 == 2 else self.arg(names)))
+            got = call(ctx.neighbors, self.arg(names, set_ok=True))
             ok = got.ok and len(got.value) == len(set(got.value)) and set(got.value) == want
             rec.check('C05.neighbors_eq_upper_covers', ok,
                       lambda: f'neighbors({names!r}) = {got.text()} model {sorted(want)!r} rows={f.rows} labels={sl.objs}')
@@ -890,6 +904,11 @@ class Live:
             objs, props = self.labels[li]
             f = FCA(len(objs), len(props), rows)
             cells = f.bools() if index % 3 else [tuple(int(b) for b in r) for r in f.bools()]   # cells by truthiness
+            if index % 6 == 3:      # ... also of counts (a cross table handed over as it is)
+                yes, no = (2, 3, 1, 7, 12), (0, False, 0, 0, False)
+                cells = [tuple((yes if b else no)[(i * 31 + j * 17 + index) % 5] for j, b in enumerate(r))
+                         for i, r in enumerate(f.bools())]
+                rec.probe('truthy_cells_not_bool')
             out = call(C.Context, objs, props, cells)
             self.need(out.ok, 'context_constructs', lambda: f'Context(...) raised {out.text()} for {objs, props, rows}')
             sl = Slot(li, objs, props, f)
@@ -1056,7 +1075,7 @@ class Live:
             return (s,)
         if kind == 'q_get':
             names, e, i = self._key(sl, ev[2], ev[3])
-            out = call(ctx.__getitem__, self.arg(names))
+            out = call(ctx.__getitem__, self.arg(names, iter_ok=ev[2] == 'o', set_ok=True))
             want = (sl.onames(e), sl.pnames(i))
             rec.check('C02.least_concept', out.ok and out.value == want,
                       lambda: f'context[{names!r}] = {out.text()} model {want!r} rows={f.rows}')
@@ -1068,7 +1087,7 @@ class Live:
             # the library call comes first: on a fresh lattice it is the very first query
             if kind == 'q_lat_get':
                 names, e, i = self._key(sl, ev[3], ev[4])
-                out = call(lat.__getitem__, self.arg(names))
+                out = call(lat.__getitem__, self.arg(names, iter_ok=ev[3] == 'o'))
             elif kind == 'q_lat_call':
                 names = [sl.props[j % f.m] for j in ev[3]]
                 e = f.extent(sl.pmask(names))
